@@ -792,13 +792,13 @@ def abs_(x, *, out=None):
     return _out(abs(x), out)
 
 
-SIN = z3.Function('sin', z3.RealSort(), z3.RealSort())
-COS = z3.Function('cos', z3.RealSort(), z3.RealSort())
-ATAN2 = z3.Function('atan2', z3.RealSort(), z3.RealSort(), z3.RealSort())
-ASIN = z3.Function('asin', z3.RealSort(), z3.RealSort())
-ACOS = z3.Function('acos', z3.RealSort(), z3.RealSort())
-EXP = z3.Function('exp', z3.RealSort(), z3.RealSort())
-LOG = z3.Function('log', z3.RealSort(), z3.RealSort())
+SIN = z3.Function('vf_sin', z3.RealSort(), z3.RealSort())
+COS = z3.Function('vf_cos', z3.RealSort(), z3.RealSort())
+ATAN2 = z3.Function('vf_atan2', z3.RealSort(), z3.RealSort(), z3.RealSort())
+ASIN = z3.Function('vf_asin', z3.RealSort(), z3.RealSort())
+ACOS = z3.Function('vf_acos', z3.RealSort(), z3.RealSort())
+EXP = z3.Function('vf_exp', z3.RealSort(), z3.RealSort())
+LOG = z3.Function('vf_log', z3.RealSort(), z3.RealSort())
 PI = sym('pi')
 RAD = NAMED['rad']
 ONE = NAMED['dimensionless']
@@ -885,7 +885,7 @@ def log(x, *, out=None):
 def norm(v):
     if v.dtype != VEC:
         raise DTypeError(f"'norm' does not support dtypes '{v.dtype}', ")
-    r = sqrt_term(sum(x * x for x in v.val))
+    r = sqrt_term(sum(x * x for x in v.val), nonneg=True)
     rel = None if v.buf.rel is None else _up((1 + v.buf.rel) * (1 + 3 * U64) - 1)
     return v._new(r, v.unit, F64, None, v.buf.nan, v.buf.defd, rel)
 
